@@ -250,6 +250,8 @@ typedef struct ep
     int txmsg[1024];    /* message boundaries (end offsets) */
     int txmsgn;
     int rxpos;          /* bytes of peer->tx delivered in order to this endpoint's application */
+    unsigned char seen[512][12]; /* DTLS: sender key fp || epoch || sequence of every datagram record already delivered here */
+    int seenn;
     int cbmode;         /* 0 none, 1 strict (return alert), 2 permissive (return 0) */
     int cbcalls;
     int cbalert;
@@ -1182,7 +1184,23 @@ static void do_deliver(ep_t *src, int count, int chunk)
         rec_t *r0 = &src->q[0];
         int og = r0->origin;
         kmatch = (r0->kfp != 0 && r0->kfp == rkey_fp(dst->ssl));
-        seqm = dst->dtls ? 1 : (memcmp(r0->seq, dst->ssl->sec.remSeq, 8) == 0);
+        if (dst->dtls)
+        {
+            /* DTLS: explicit epoch+sequence; fresh iff not delivered to this endpoint before */
+            int k2;
+            seqm = 1;
+            if (r0->n >= 13)
+            {
+                unsigned char key[12];
+                memcpy(key, &r0->kfp, 4); memcpy(key + 4, r0->b + 3, 8);
+                for (k2 = 0; k2 < dst->seenn; k2++) if (memcmp(dst->seen[k2], key, 12) == 0) seqm = 0;
+                if (seqm && dst->seenn < 512) memcpy(dst->seen[dst->seenn++], key, 12);
+            }
+        }
+        else
+        {
+            seqm = (memcmp(r0->seq, dst->ssl->sec.remSeq, 8) == 0);
+        }
         /* authentic = sealed by a key holder, bytes untouched, and key + sequence number are the ones
            the receiver currently expects (a replayed copy delivered in the original's place qualifies) */
         auth = (og == 0 || og == 3 || og == 4 || og == 5 || og == 6) && wsec && kmatch && seqm;
